@@ -325,7 +325,7 @@ func describe(p *path, b *builder, blk *wire.MsgBlock, bip34HashOk bool, s scen)
 		c, ok := p.utxo[o]
 		return c, ok
 	}
-	for ti, t := range txs {
+	for _, t := range txs {
 		txid := t.TxHash()
 		overw := false
 		for oi := range t.TxOut {
@@ -417,7 +417,7 @@ func describe(p *path, b *builder, blk *wire.MsgBlock, bip34HashOk bool, s scen)
 			}
 			op := wire.OutPoint{Hash: txid, Index: uint32(oi)}
 			delete(spent, op)
-			view[op] = coin{amount: o.Value, script: o.PkScript, k: classify(o.PkScript), height: height, coinbase: ti == 0}
+			view[op] = coin{amount: o.Value, script: o.PkScript, k: classify(o.PkScript), height: height, coinbase: isCbShape}
 		}
 	}
 	return sb.String()
